@@ -103,7 +103,9 @@ def script(draw):
         src += "while True:\n" + "\n".join("    " + x for x in (loop + ["sleep(5)"])) + "\n"
     # the project directory may be one an earlier upload of another version of the script left behind (other libraries in its platformio.ini)
     prev = draw(st.one_of(st.none(), st.lists(st.sampled_from(["Servo", "LiquidCrystal", "LiquidCrystal_I2C", "OtherLib"]), max_size=3)))
-    return {"src": src, "expect": sorted(expect), "decoys": len(decoys), "prev_libs": prev}
+    # ... for any registered target: what a script needs does not depend on the board it is built for
+    pair = draw(st.sampled_from([None, None, ["atmelavr", "uno"], ["atmelmegaavr", "nano_every"], ["atmelmegaavr", "uno_wifi_rev2"], ["atmelavr", "digispark-tiny"], ["atmelavr", "megaatmega2560"]]))
+    return {"src": src, "expect": sorted(expect), "decoys": len(decoys), "prev_libs": prev, "pair": pair}
 
 
 GLOBAL_OBJ = re.compile(r"^(Servo|LiquidCrystal_I2C|LiquidCrystal)\s+([A-Za-z_]\w*)\s*(?:\(|;)", re.M)
@@ -152,7 +154,8 @@ def evaluate(case, link=False):
         try:
             if case.get("prev_libs") is not None:
                 write_project(pathlib.Path(pd), "// earlier version\n", "COM9", lib_deps=case["prev_libs"])
-            write_project(pathlib.Path(pd), cpp, "COM3", lib_deps=req)
+            kw = {"platform": case["pair"][0], "board": case["pair"][1]} if case.get("pair") else {}
+            write_project(pathlib.Path(pd), cpp, "COM3", lib_deps=req, **kw)
             cp = configparser.ConfigParser(interpolation=None)
             cp.read(str(pathlib.Path(pd) / "platformio.ini"), encoding="utf-8")
             ini_libs = [ln.strip() for sec in cp.sections() for ln in cp[sec].get("lib_deps", "").splitlines() if ln.strip()]
